@@ -342,3 +342,141 @@ def parse_immutable_leases(raw):
         owner, rn, cn, exp = struct.unpack(">L32s32sL", raw[lo + 72 * i: lo + 72 * (i + 1)])
         out.append((i, owner, exp, rn, cn, None))
     return out
+
+
+# ---------------------------------------------------------------------------
+# generators shared by the three drivers
+# ---------------------------------------------------------------------------
+def rb(r, n):
+    return bytes(r.getrandbits(8) for _ in range(n))
+
+
+def secret(k):
+    """32-byte secret number k (distinct k, distinct secrets; no zero bytes so that a
+    search for the cleartext in a container file is meaningful)"""
+    return bytes(((k * 37 + i * 11) % 251) + 1 for i in range(32))
+
+
+def pick_offset(r, cur_len, limit):
+    """boundary-centred offsets: around 0, the current end of data, and past the end"""
+    c = r.random()
+    if c < 0.35:
+        base = cur_len
+    elif c < 0.55:
+        base = 0
+    elif c < 0.75:
+        base = r.randint(0, max(cur_len, 1))
+    else:
+        base = r.choice([cur_len + r.randint(1, 40), cur_len + r.randint(100, 600), r.randint(0, limit)])
+    off = base + r.choice([-2, -1, 0, 0, 0, 1, 2, 5])
+    return max(0, min(off, limit))
+
+
+def gen_datav(r, cur_len, limit, maxlen=12):
+    n = r.choice([0, 1, 1, 1, 2, 2, 3])
+    return [(pick_offset(r, cur_len, limit), rb(r, r.choice([0, 1, 1, 2, 3, 5, maxlen]))) for _ in range(n)]
+
+
+def gen_newlen(r, cur_len):
+    c = r.random()
+    if c < 0.62:
+        return None
+    if c < 0.70:
+        return 0
+    if c < 0.88:
+        return max(0, cur_len + r.choice([-30, -3, -1, 0, 1]))
+    return r.choice([1, 2, 7, cur_len // 2, cur_len + 50, 5000])
+
+
+def gen_testv(r, ref_data, p_true=0.75):
+    """test vector that passes with probability about p_true against `ref_data`"""
+    n = r.choice([0, 0, 1, 1, 2])
+    out = []
+    for _ in range(n):
+        off = pick_offset(r, len(ref_data), len(ref_data) + 20)
+        ln = r.choice([0, 1, 2, 4, 8])
+        spec = bytes(ref_data[off:off + ln])
+        if r.random() > p_true:
+            spec = spec + b"\x01" if r.random() < 0.5 or not spec else bytes([spec[0] ^ 1]) + spec[1:]
+        out.append((off, ln, b"eq", spec))
+    return out
+
+
+def gen_readv(r, cur_len, whole=4000):
+    out = [(0, whole)]
+    for _ in range(r.choice([0, 1, 2])):
+        out.append((pick_offset(r, cur_len, cur_len + 50), r.choice([0, 1, 3, 10, 100])))
+    return out
+
+
+def ref_apply(data, dv, nl):
+    """the statement's effect of one share's write vectors + new_length on its data
+    (data None = no share); returns the new data or None when deleted"""
+    if nl == 0:
+        return None
+    a = RefArray(data or b"")
+    for off, d in dv:
+        a.write(off, d)
+    if nl is not None:
+        a.truncate(nl)
+    return bytes(a.d)
+
+
+def vectors_fit(dv, maxsz):
+    return all(off + len(d) <= maxsz for off, d in dv)
+
+
+class patched_max_size(object):
+    """MutableShareFile.MAX_SIZE is a class attribute consulted through `self`/the class:
+    scaling it down lets the boundary off+len == MAX_SIZE be exercised on real files."""
+
+    def __init__(self, value):
+        self.value = value
+
+    def __enter__(self):
+        from allmydata.storage.mutable import MutableShareFile
+        self.cls = MutableShareFile
+        self.old = MutableShareFile.MAX_SIZE
+        if self.value is not None:
+            MutableShareFile.MAX_SIZE = self.value
+        return self
+
+    def __exit__(self, *a):
+        self.cls.MAX_SIZE = self.old
+
+
+def real_max_size():
+    from allmydata.storage.mutable import MutableShareFile
+    return MutableShareFile.MAX_SIZE
+
+
+def lease_view(leases):
+    """canonical view of get_leases() results through the public interface"""
+    return [(l.owner_num, int(l.get_expiration_time()), l.present_renew_secret(), l.present_cancel_secret(),
+             l.nodeid) for l in leases]
+
+
+def mutable_leases(fn):
+    """lease table of a mutable share; an unreadable lease area is reported as such, not raised"""
+    from allmydata.storage.mutable import MutableShareFile
+    try:
+        return lease_view(MutableShareFile(fn).get_leases())
+    except Exception as e:  # noqa: B902
+        return [("unreadable", 0, "%s: %s" % (type(e).__name__, e), "", None)]
+
+
+def immutable_leases(fn):
+    from allmydata.storage.immutable import ShareFile
+    try:
+        return lease_view(ShareFile(fn).get_leases())
+    except Exception as e:  # noqa: B902
+        return [("unreadable", 0, "%s: %s" % (type(e).__name__, e), "", None)]
+
+
+def renew_key(version, s):
+    """what present_renew_secret() shows for a lease stored under secret s (independent of nacl)"""
+    import hashlib
+    from allmydata.util import base32
+    if version == 1:
+        return str(base32.b2a(s), "utf-8")
+    return "hash:" + str(base32.b2a(hashlib.blake2b(s, digest_size=32).digest()), "utf-8")
